@@ -1,6 +1,7 @@
 import Thanos.Common.Parse
 import Thanos.Model.Hashring
 import Thanos.Model.MultiRing
+import Thanos.Model.ShuffleShard
 /-
   Line-protocol driver of the `hashring` family (C18 C19 C20 C21 C27).
   One request per line, one answer per line; every line is self-contained.
@@ -22,6 +23,13 @@ import Thanos.Model.MultiRing
 
   keta <rf> <eps> <pos> <series>            the ring without endpoint number pos of eps, and the ring of eps
     -> <A_before> <A_after>                  (both in positions of eps; GetN for n = 0 .. rf-1)
+
+  shard <za> <rf> <cap> <eps> <dflt> <ovs> <reqs>    a history of tenants on one shuffle shard ring
+      za      1 = zone aware, 0 = zone awareness disabled;  cap = LRU capacity;  eps as in ket (the base ring)
+      dflt    default shard size;  ovs = `|`-list of <type>:<size>:<tenants> (types/tenants as in route), `-` = none
+      reqs    `;`-list of <tenanthex>:<tab>/<tab>/…:<azhex>=<p1.p2.…>/…    glob tables per override (`-` if
+              none), and per zone the positions math/rand draws for (tenant, zone) (zone `-` when za = 0)
+    -> `;`-list: sorted positions (in eps) of the tenant's nodes `i.j.k` | toobig | toofew | stuck
 
   route <cfgs> <reqs>                       a history of requests on one multi hashring (with its cache)
       cfgs    `|`-list of <type>:<tenants>    type e ("exact") | x ("") | g ("glob") | o (anything else);
@@ -180,6 +188,81 @@ def viewOf (reqs : List (String × List Cfg)) (tenant : String) : List Cfg :=
   | some r => r.2
   | none => []
 
+/-! ### C21: shuffle sharding -/
+
+/-- endpoints with their zone tokens: (zone token, Ep) -/
+def parseEpsZ (s : String) : Option (List String × List Ep) :=
+  let rec go (toks : List String) (tab : List String) (acc : List Ep) : Option (List String × List Ep) :=
+    match toks with
+    | [] => some (tab, acc.reverse)
+    | t :: ts =>
+      match splitChar '/' t with
+      | [_, az, hs] =>
+        match parseNats? '.' hs with
+        | some hashes =>
+          let (tab', z) := intern tab az
+          go ts tab' ({ az := z, hashes := hashes } :: acc)
+        | none => none
+      | _ => none
+  go (listOf ',' s) [] []
+
+open Thanos.MultiRing Thanos.ShuffleShard in
+/-- `<type>:<size>:<tenants>` -/
+def parseOvs (s : String) : Option (List (MType × Nat × List String)) :=
+  (listOf '|' s).mapM fun t =>
+    match splitChar ':' t with
+    | [ty, sz, ts] =>
+      match parseMTypeOv ty, parseNat? sz with
+      | some m, some n => some (m, n, if ts = "~" then [] else splitChar ',' ts)
+      | _, _ => none
+    | _ => none
+where
+  /-- for overrides the empty matcher type is exact as well (after the repair of getShardSize) -/
+  parseMTypeOv (s : String) : Option MType :=
+    if s = "e" ∨ s = "x" then some .exact else if s = "g" then some .glob else if s = "o" then some .other else none
+
+/-- `<azhex>=<p1.p2.…>` per zone, `/`-separated -/
+def parsePositions (s : String) : Option (List (String × List Nat)) :=
+  (listOf '/' s).mapM fun t =>
+    match splitChar '=' t with
+    | [z, ps] => (parseNats? '.' ps).map fun l => (z, l)
+    | _ => none
+
+structure ShardReq where
+  tenant : String
+  globs : List (List MultiRing.GlobRes)
+  positions : List (String × List Nat)
+
+def parseShardReq (s : String) : Option ShardReq :=
+  match splitChar ':' s with
+  | [t, tabs, pos] =>
+    match (if tabs = "-" then some [] else (splitChar '/' tabs).mapM parseGlobTab), parsePositions pos with
+    | some gs, some ps => some { tenant := t, globs := gs, positions := ps }
+    | _, _ => none
+  | _ => none
+
+open Thanos.ShuffleShard in
+/-- the answer for one tenant: sorted node positions, or the error of `getTenantShard` -/
+def shardAnswer (za : Bool) (rf : Nat) (zoneTab : List String) (eps : List Ep) (ring : List Sec) (dflt : Nat)
+    (ovs : List (MultiRing.MType × Nat × List String)) (r : ShardReq) : Option String :=
+  if r.globs.length ≠ ovs.length then none else
+  let ovs' : List Override := (ovs.zip r.globs).map fun (o, g) => { typ := o.1, size := o.2.1, tenants := o.2.2, glob := g }
+  let posOf (z : Nat) : List Nat :=
+    let key := if za then (zoneTab[z]?).getD "?" else "-"
+    match r.positions.find? (·.1 == key) with
+    | some p => p.2
+    | none => []
+  match tenantShard za ring dflt ovs' r.tenant posOf with
+  | .tooBig => some "toobig"
+  | .nodes final =>
+    if final.length < rf then some "toofew"
+    else
+      -- zone sizes of the selected nodes (their real zones)
+      let azs := final.filterMap fun e => (eps[e]?).map (·.az)
+      let sizes := (dedup azs).map fun z => azs.count z
+      if !canBalance sizes rf then some "stuck"
+      else some (showNats "." (final.mergeSort (fun a b => decide (a ≤ b))))
+
 def handle : List String → String
   | ["ket", mode, rf, nq, eps, series] =>
     match parseNat? rf, parseNat? nq, parseEps eps, parseSeries series with
@@ -198,6 +281,26 @@ def handle : List String → String
         ketG true rf rf (eps.eraseIdx pos) ren vs ++ " " ++ ketG true rf rf eps (List.range eps.length) vs
       else "bad-op"
     | _, _, _, _ => "bad-op"
+  | ["shard", za, rf, cap, eps, dflt, ovs, reqs] =>
+    match parseNat? rf, parseNat? cap, parseEpsZ eps, parseNat? dflt, parseOvs ovs, (listOf ';' reqs).mapM parseShardReq with
+    | some rf, some cap, some (ztab, eps), some dflt, some ovs, some rs =>
+      let ring := mkRing eps
+      let za := za = "1"
+      -- all requests of one tenant carry the same tables: compute by tenant, cache by tenant
+      let compute (t : String) : Option String :=
+        match rs.find? (·.tenant == t) with
+        | some r =>
+          match shardAnswer za rf ztab eps ring dflt ovs r with
+          | some a => if a = "toobig" ∨ a = "toofew" ∨ a = "stuck" then none else some a
+          | none => none
+        | none => none
+      let errOf (t : String) : String :=
+        match rs.find? (·.tenant == t) with
+        | some r => (shardAnswer za rf ztab eps ring dflt ovs r).getD "bad-op"
+        | none => "bad-op"
+      let answers := ShuffleShard.getCachedSeq compute cap [] (rs.map (·.tenant))
+      joinWith ";" ((answers.zip (rs.map (·.tenant))).map fun (a, t) => match a with | some s => s | none => errOf t)
+    | _, _, _, _, _, _ => "bad-op"
   | ["route", cfgs, reqs] =>
     match parseCfgs cfgs with
     | some cfgs =>
